@@ -206,3 +206,9 @@ func TestReplay(t *testing.T) {
 		fmt.Printf("REPLAY-OK property=%s outcome=%s\n", c.Prop, r.Outcome)
 	}
 }
+
+// serializability tier (lin_test.go), present only in overlay builds (build tag verife2)
+var (
+	linTiers   = map[string]func(t *testing.T, w *explore.Worker, idx *int){}
+	linReplays = map[string]func(t *testing.T, c explore.Case) explore.Result{}
+)
